@@ -174,8 +174,7 @@ void _facfft(const PlanTree* plan, cmplx_t* restrict x, cmplx_t* restrict mem, c
 
 //-----------------------------------------------------------------------------------------------------------------------------
 FactorFFTPlan::FactorFFTPlan(int n)
-  : _n{n}
-  , _px(n) {
+  : _n{n} {
     DSPLIB_ASSERT(!isprime(n), "fft size must not be a prime number");
     _twiddle = expj(-2 * pi * arange(n) / n);   //TODO: only part of the table is needed
     _plan = std::make_shared<PlanTree>(n);
@@ -184,7 +183,8 @@ FactorFFTPlan::FactorFFTPlan(int n)
 [[nodiscard]] arr_cmplx FactorFFTPlan::solve(const arr_cmplx& x) const {
     DSPLIB_ASSERT(x.size() == _n, "input vector size is not equal fft size");
     arr_cmplx r(x);   //TODO: remove copy
-    _facfft(_plan.get(), r.data(), _px.data(), _twiddle.data(), _n);
+    arr_cmplx px(_n);   //per-call scratch: solve() is const and may run concurrently on a shared plan
+    _facfft(_plan.get(), r.data(), px.data(), _twiddle.data(), _n);
     return r;
 }
 
